@@ -170,3 +170,29 @@ package interp
 //@   replay want := verifSkipFile(ctx, p, skipTest)
 //@   replay got := skipFile(ctx, p, skipTest)
 //@   replay if got != want { fmt.Printf("REPLAY-MISMATCH: skipFile(%q, %v) = %v, go/build says %v (GOOS=%q GOARCH=%q tags=%q)\n", p, skipTest, got, want, ctx.GOOS, ctx.GOARCH, ctx.BuildTags) } else { fmt.Println("REPLAY-OK") }
+
+// buildOk: the constraint lines of a file are evaluated in the build context as it was given — the
+// file's own `yaegi:tags` take no part in deciding the file — and a file that is rejected (or does not
+// parse) adds nothing to the context; only an accepted file contributes its yaegi:tags.
+//@ pred sameTags(ctx): ctx.BuildTags == old(ctx.BuildTags) && forall(k, 0, len(ctx.BuildTags), ctx.BuildTags[k] == old(ctx.BuildTags[k]))
+//@ func setYaegiTags(ctx, comments)
+//@   props C17
+//@   opt safety = off
+//@   opt loops = havoc
+//@   opt opaque-calls = *
+//@   opt opaque-havoc = none
+//@   requires [assume] ctx != nil
+//@   ensures other-context-fields-kept: ctx.GOOS == old(ctx.GOOS) && ctx.GOARCH == old(ctx.GOARCH) && ctx.Compiler == old(ctx.Compiler) && ctx.CgoEnabled == old(ctx.CgoEnabled) && ctx.ToolTags == old(ctx.ToolTags) && ctx.ReleaseTags == old(ctx.ReleaseTags)
+//@ func (interp *Interpreter) buildOk(ctx, name, src) (ok, err)
+//@   props C17
+//@   opt safety = off
+//@   opt opaque-calls = buildLineOk
+//@   opt ignore-contracts = buildLineOk
+//@   opt opaque-havoc = none
+//@   requires [assume] ctx != nil && interp != nil
+//@   ensures rejected-file-adds-no-tags: !ok ==> sameTags(ctx)
+//@   loop 1
+//@   invariant constraints-evaluated-in-the-given-context: sameTags(ctx)
+//@   loop 2
+//@   invariant constraints-evaluated-in-the-given-context: sameTags(ctx)
+//@   canary sameTags(ctx)
